@@ -1385,6 +1385,157 @@ def run_scalars(case):
 
 
 # ---------------------------------------------------------------------------
+# 7b. local queries: reduced density matrices and expectation values on 1-3 sites IN ANY ORDER
+# ---------------------------------------------------------------------------
+
+LQ_ROUTES = ["ptr_canonical", "ptr_canonical", "lexp_canonical", "lexp_canonical", "compute_default", "compute_canonical",
+             "compute_canonical_fn", "compute_envs", "compute_envs_fn", "ptr_exact", "lexp_exact", "compute_exact"]
+
+
+@st.composite
+def s_local(draw, tier):
+    a = draw(chains(op=False, Lmin=2, Lmax=7, maxD=256, cyclic=False, kinds=KINDS_WELL, phys=(2, 2, 2, 3, 1)))
+    L = a["L"]
+    nt = draw(st.integers(1, 4))
+    wheres = []
+    for _ in range(nt):
+        k = draw(st.integers(1, min(3, L)))
+        w = draw(st.lists(st.integers(0, L - 1), min_size=k, max_size=k, unique=True))  # any order
+        if draw(st.booleans()) and k >= 2:
+            w = sorted(w, reverse=True)  # descending on purpose
+        if w not in wheres:
+            wheres.append(w)
+    return {"a": a, "wheres": wheres, "gseed": draw(A.seeds), "route": draw(st.sampled_from(LQ_ROUTES)),
+            "normalized": draw(st.booleans()), "return_all": draw(st.booleans()), "int_where": draw(st.booleans()),
+            "inplace": draw(st.booleans()), "info": draw(st.sampled_from(["none", "calc", "site"])),
+            "unit": draw(st.booleans()), "exponent": draw(st.sampled_from([0.0, 0.0, 0.0, 0.0, 0.0, 1.5, -1.0])),
+            "herm": draw(st.integers(0, 3)) == 0}
+
+
+def run_local(case):
+    da = case["a"]
+    L, ph = da["L"], da["phys"]
+    route = case["route"]
+    arrs = chain_arrays(da)
+    v, mag = chain_dense(da, arrs)
+    nv = float(np.linalg.norm(v))
+    if nv <= 1e-6 * mag:
+        raise Reject("(nearly) zero state")
+    if case["unit"]:
+        arrs[0] = (arrs[0] / nv).astype(arrs[0].dtype)
+        v, mag = v / nv, mag / nv
+    psi = build_chain(da, arrs)
+    expo = float(case["exponent"])
+    # a stored exponent is only generated for the canonical routes (documented there as part of bra and ket)
+    if expo and not route.endswith("canonical") and route not in ("compute_default", "compute_canonical_fn"):
+        expo = 0.0
+    if expo:
+        psi.exponent = expo
+        v, mag = v * 10.0**expo, mag * 10.0**expo
+    nrm2 = float(np.vdot(v, v).real)
+    normalized = case["normalized"]
+    wheres = [list(w) for w in case["wheres"]]
+    sing = single(da["dtype"])
+    tol = (INV32 if sing else 1e-8)
+    info = dict(route=route, normalized=normalized, complex="complex" in da["dtype"])
+    cls = chain_classes(da) + ["route=" + route, "normalized" if normalized else "raw"] + (["exp!=0"] if expo else [])
+
+    def rho_ref(w):
+        r = ptrace(v, ph, w)  # subsystems in the order requested
+        return r / np.trace(r) if normalized else r
+
+    def G_of(w, j):
+        d = prod(ph[i] for i in w)
+        g = A.make_matrix(site_seed(case["gseed"], j), "hermitian" if case["herm"] else "gauss", d, d, "complex128")
+        return g.astype("complex64") if sing else g
+
+    def key_of(w):
+        return w[0] if (len(w) == 1 and case["int_where"]) else tuple(w)
+
+    def order_class(w):
+        return "1site" if len(w) == 1 else "ascending" if w == sorted(w) else "descending" if w == sorted(w, reverse=True) else "mixed"
+
+    ikw = {}
+    if case["info"] == "calc":
+        ikw["info"] = {"cur_orthog": "calc"}
+    elif case["info"] == "site":
+        ikw["info"] = {}
+    fp = fingerprint(psi)
+    e = 0.0
+    scale = 1.0 if normalized else nrm2
+    if route in ("ptr_canonical", "ptr_exact"):
+        w = wheres[0]
+        cls.append("order=" + order_class(w))
+        info["order"] = order_class(w)
+        if route == "ptr_canonical":
+            got = np.asarray(psi.partial_trace_to_dense_canonical(key_of(w), normalized=normalized, **ikw))
+        else:
+            got = np.asarray(psi.partial_trace_exact(tuple(w), normalized=normalized))
+        ref = rho_ref(w)
+        if got.shape != ref.shape:
+            raise Violation("rho-shape", got=list(got.shape), want=list(ref.shape), **info)
+        err = rel_err(got, ref, floor=scale)
+        if not err <= tol:
+            # classify: is it the reduced state with its subsystems in another order?
+            other = [list(p) for p in itertools.permutations(w) if list(p) != w]
+            perm = any(rel_err(got, (ptrace(v, ph, p) / (np.trace(ptrace(v, ph, p)) if normalized else 1.0)), floor=scale) <= tol
+                       for p in other if prod(ph[i] for i in p) == got.shape[0])
+            raise Violation("rho-value", err=err, subsystems_permuted=bool(perm), **info)
+        e = err
+    else:
+        terms = {key_of(w): G_of(w, j) for j, w in enumerate(wheres)}
+        refs = {key_of(w): complex(np.trace(terms[key_of(w)].astype(np.complex128) @ rho_ref(w))) for w in wheres}
+        floors = {key_of(w): float(np.linalg.norm(terms[key_of(w)])) * scale for w in wheres}
+        orders = sorted({order_class(w) for w in wheres})
+        cls += ["order=" + o for o in orders] + [f"terms={len(wheres)}"]
+        info["orders"] = orders
+        if route in ("lexp_canonical", "lexp_exact"):
+            w = wheres[0]
+            k = key_of(w)
+            if route == "lexp_canonical":
+                got = {k: psi.local_expectation_canonical(terms[k], k, normalized=normalized, **ikw)}
+            else:
+                got = {k: psi.local_expectation_exact(terms[k], tuple(w), normalized=normalized)}
+            refs, floors = {k: refs[k]}, {k: floors[k]}
+            ret_all = True
+        else:
+            ret_all = case["return_all"]
+            kw = dict(normalized=normalized, return_all=ret_all)
+            if route == "compute_default":
+                res = psi.compute_local_expectation(terms, inplace=case["inplace"], **ikw, **kw)
+            elif route == "compute_canonical":
+                res = psi.compute_local_expectation(terms, method="canonical", inplace=case["inplace"], **ikw, **kw)
+            elif route == "compute_canonical_fn":
+                res = psi.compute_local_expectation_canonical(terms, inplace=case["inplace"], **ikw, **kw)
+            elif route == "compute_envs":
+                res = psi.compute_local_expectation(terms, method="envs", **kw)
+            elif route == "compute_envs_fn":
+                res = psi.compute_local_expectation_via_envs(terms, **kw)
+            else:
+                res = psi.compute_local_expectation_exact(terms, **kw)
+            got = res if ret_all else {"sum": res}
+            if not ret_all:
+                refs, floors = {"sum": sum(refs.values())}, {"sum": sum(floors.values())}
+        if ret_all and set(got) != set(refs):
+            raise Violation("expec-keys", got=[str(k) for k in got], **info)
+        for k in refs:
+            err = rel_err(np.asarray(complex(got[k])), np.asarray(refs[k]), floor=floors[k])
+            if not err <= tol:
+                raise Violation("expec-value", err=err, key=str(k), **info)
+            e = max(e, err)
+    # the state still denotes the same vector (canonical routes move the centre in place), and plain spellings leave
+    # the receiver's tensors alone
+    moved = route in ("ptr_canonical", "lexp_canonical") or (route in ("compute_default", "compute_canonical", "compute_canonical_fn")
+                                                              and case["inplace"])
+    if moved:
+        e = max(e, close(dense_vec(psi, list(range(L)), **info), v, tol, mag, reason="state-changed", **info))
+    else:
+        untouched(psi, fp, "receiver-mutated", **info)
+    multi_desc = any(len(w) >= 2 and w != sorted(w) for w in wheres)
+    return {"nt": L >= 3 and multi_desc, "cls": cls, "err": e}
+
+
+# ---------------------------------------------------------------------------
 # 8. partial trace to an MPO, partial transpose, conjugation
 # ---------------------------------------------------------------------------
 
@@ -2159,6 +2310,8 @@ SUBCHECKS = [
              rule="sub-MPO on a subset of sites applied to an MPS (apply, lazy, gate_with_submpo x all 17 1D methods + lazy x transpose x sweep_reverse) == kron-embedded operator; recorded orthogonality range true; nt: L>=3 and strict subset"),
     SubCheck("scalars", run_scalars, s_scalars, examples=(250, 5000), shards=(1, 4),
              rule="a.H@b, overlap, norm, expec_TN_1D with 1-2 operators, trace, trace of product, normalize(bra, insert), bipartite Schmidt values == dense; nt: L>=3 and site-dependent dims or cyclic or >=2 layers"),
+    SubCheck("local_queries", run_local, s_local, examples=(400, 8000), shards=(2, 6),
+             rule="open MPS (4 dtypes, normalised or not, site-dependent dims) x 1-4 site tuples of 1-3 distinct sites in ANY order x partial_trace_to_dense_canonical, local_expectation_canonical, compute_local_expectation (default/canonical/envs, dict of several tuples, normalized, return_all, inplace, info), compute_local_expectation_canonical/_via_envs, partial_trace_exact, local_expectation_exact, compute_local_expectation_exact with random complex non-symmetric operators (kron order = tuple order) == ptrace / tr(G rho) of the dense state in the requested subsystem order; nt: L>=3 and a multi-site tuple not in ascending order"),
     SubCheck("partial_trace_to_mpo", run_ptrace, s_ptrace, examples=(150, 3000), shards=(1, 4),
              rule="MatrixProductState.partial_trace_to_mpo(keep list|slice, rescale_sites, upper_ind_id) == Tr_rest|psi><psi| (rows=upper); nt: complex, L>=3, strict subset"),
     SubCheck("transpose_conj", run_transpose, s_transpose, examples=(150, 3000), shards=(1, 4),
